@@ -134,7 +134,7 @@ theorem c05_next_ends (st : St) (c : ChanId) (l : Bool) :
   | some ch =>
     simp only
     cases hra : ch.receiverAlive with
-    | false => simp
+    | false => simp [hra]
     | true =>
       simp only [Bool.not_true, Bool.false_eq_true, if_false]
       cases hb : ch.buf with
@@ -192,18 +192,23 @@ theorem c05_unsub_sent (st : St) (hr : Reachable st) (s : SubId) (rid : Id)
 
 /-! ### witnesses -/
 
-def jn (s : String) : Text := lit s
+-- texts as explicit code-point lists (kernel evaluation of long `String` literals is very slow)
+/-- `{"jsonrpc":"2.0","id":0,"result":"S"}` -/
+def tAccept : Text := [123, 34, 106, 115, 111, 110, 114, 112, 99, 34, 58, 34, 50, 46, 48, 34, 44, 34, 105, 100, 34, 58, 48, 44, 34, 114, 101, 115, 117, 108, 116, 34, 58, 34, 83, 34, 125]
+/-- `{"jsonrpc":"2.0","method":"sub","params":{"subscription":"S","result":1}}` -/
+def tPush1 : Text := [123, 34, 106, 115, 111, 110, 114, 112, 99, 34, 58, 34, 50, 46, 48, 34, 44, 34, 109, 101, 116, 104, 111, 100, 34, 58, 34, 115, 117, 98, 34, 44, 34, 112, 97, 114, 97, 109, 115, 34, 58, 123, 34, 115, 117, 98, 115, 99, 114, 105, 112, 116, 105, 111, 110, 34, 58, 34, 83, 34, 44, 34, 114, 101, 115, 117, 108, 116, 34, 58, 49, 125, 125]
+/-- `{"jsonrpc":"2.0","method":"sub","params":{"subscription":"S","result":2}}` -/
+def tPush2 : Text := [123, 34, 106, 115, 111, 110, 114, 112, 99, 34, 58, 34, 50, 46, 48, 34, 44, 34, 109, 101, 116, 104, 111, 100, 34, 58, 34, 115, 117, 98, 34, 44, 34, 112, 97, 114, 97, 109, 115, 34, 58, 123, 34, 115, 117, 98, 115, 99, 114, 105, 112, 116, 105, 111, 110, 34, 58, 34, 83, 34, 44, 34, 114, 101, 115, 117, 108, 116, 34, 58, 50, 125, 125]
+/-- `{"jsonrpc":"2.0","method":"sub","params":{"subscription":"S","result":3}}` -/
+def tPush3 : Text := [123, 34, 106, 115, 111, 110, 114, 112, 99, 34, 58, 34, 50, 46, 48, 34, 44, 34, 109, 101, 116, 104, 111, 100, 34, 58, 34, 115, 117, 98, 34, 44, 34, 112, 97, 114, 97, 109, 115, 34, 58, 123, 34, 115, 117, 98, 115, 99, 114, 105, 112, 116, 105, 111, 110, 34, 58, 34, 83, 34, 44, 34, 114, 101, 115, 117, 108, 116, 34, 58, 51, 125, 125]
+/-- `{"jsonrpc":"2.0","method":"sub","params":{"subscription":"S","error":"bye"}}` -/
+def tClose : Text := [123, 34, 106, 115, 111, 110, 114, 112, 99, 34, 58, 34, 50, 46, 48, 34, 44, 34, 109, 101, 116, 104, 111, 100, 34, 58, 34, 115, 117, 98, 34, 44, 34, 112, 97, 114, 97, 109, 115, 34, 58, 123, 34, 115, 117, 98, 115, 99, 114, 105, 112, 116, 105, 111, 110, 34, 58, 34, 83, 34, 44, 34, 101, 114, 114, 111, 114, 34, 58, 34, 98, 121, 101, 34, 125, 125]
 
 /-- F-14: capacity 1, the send task does not get to run; pushes 1,2 (2 is refused: lag, closure
 queued), the consumer reads 1, push 3 is accepted, the consumer reads 3 -/
 def gapSteps : List Step :=
-  [ .newSubscribe (lit "sub") (lit "unsub"), .sendTask 0,
-    .recv (jn "{\"jsonrpc\":\"2.0\",\"id\":0,\"result\":\"S\"}"),
-    .recv (jn "{\"jsonrpc\":\"2.0\",\"method\":\"sub\",\"params\":{\"subscription\":\"S\",\"result\":1}}"),
-    .recv (jn "{\"jsonrpc\":\"2.0\",\"method\":\"sub\",\"params\":{\"subscription\":\"S\",\"result\":2}}"),
-    .next 0,
-    .recv (jn "{\"jsonrpc\":\"2.0\",\"method\":\"sub\",\"params\":{\"subscription\":\"S\",\"result\":3}}"),
-    .next 0 ]
+  [ .newSubscribe [115, 117, 98] [117, 110, 115, 117, 98], .sendTask 0,
+    .recv tAccept, .recv tPush1, .recv tPush2, .next 0, .recv tPush3, .next 0 ]
 
 theorem gap_witness : ((run (St.init 1 false) gapSteps).1.core.chans.map (fun ch => (ch.yielded, ch.sent, ch.gapped, ch.lagged))) =
     [([[49], [51]], [[49], [50], [51]], true, true)] := by decide
@@ -231,8 +236,7 @@ example : ((run (St.init 1 false) (gapSteps.take 6)).1.core.chans.map (fun ch =>
 -- F-8 (fixed): a close notification inside an array ends the stream exactly like the single message
 example :
     let st0 := (run (St.init 2 false) (gapSteps.take 3)).1.core
-    let cl := jn "{\"jsonrpc\":\"2.0\",\"method\":\"sub\",\"params\":{\"subscription\":\"S\",\"error\":\"bye\"}}"
-    ((handleArray st0 [cl]).st.chans.map (·.senderAlive), (handleSingle st0 cl).st.chans.map (·.senderAlive)) =
+    ((handleArray st0 [tClose]).st.chans.map (·.senderAlive), (handleSingle st0 tClose).st.chans.map (·.senderAlive)) =
       ([false], [false]) := by decide
 
 end Jrpc.Client
